@@ -57,6 +57,24 @@ def own_name_guard(eng: Engine, fn: FuncInfo, node: ast.AST) -> bool:
     return c.find_path([c.entry], lambda n: n in targets, avoid=is_guard) is None
 
 
+def same_sequence(fn: FuncInfo, e: ast.AST, name: str) -> bool:
+    """`e` denotes the elements of the sequence `name`, all of them, in order, and can be traversed again: the name itself, or a MATERIALISED copy
+    (`tuple(..)` / `list(..)` / `[..]` of `x for x in name` without filter, or of the name) bound once -- never a bare generator"""
+    if unparse(e) == name:
+        return True
+    v = expand_aliases(fn, e)
+    if isinstance(v, ast.Call) and isinstance(v.func, ast.Name) and v.func.id in ('tuple', 'list') and len(v.args) == 1 and not v.keywords:
+        v = v.args[0]
+        if unparse(v) == name:
+            return True
+        if isinstance(v, (ast.GeneratorExp, ast.ListComp)) and len(v.generators) == 1 and not v.generators[0].ifs and unparse(v.generators[0].iter) == name and \
+                unparse(v.elt) == unparse(v.generators[0].target):
+            return True
+    if isinstance(v, ast.ListComp) and len(v.generators) == 1 and not v.generators[0].ifs and unparse(v.generators[0].iter) == name and unparse(v.elt) == unparse(v.generators[0].target):
+        return True
+    return False
+
+
 def fanout_rules(eng: Engine, ck: Check, rule: str):
     """send_messages_to_children delivers every message to every CURRENT child: shared by C14 (searches flow down exactly once) and
     C13 (every child is told the current position)."""
@@ -71,7 +89,7 @@ def fanout_rules(eng: Engine, ck: Check, rule: str):
         tv = lp.target.id if isinstance(lp.target, ast.Name) else '?'
         qs = [c for st in lp.body for c in calls_in(st) if call_name(c) in ('queue_messages', 'queue_message', 'send_message')]
         ok = len(qs) == 1 and unparse(qs[0].func.value) == f'{tv}.connection' and not eng.guards_at(stc, qs[0]) and \
-            any(isinstance(a, ast.Starred) and unparse(a.value) == stc.params[-1] for a in qs[0].args)
+            any(isinstance(a, ast.Starred) and same_sequence(stc, a.value, stc.params[-1]) for a in qs[0].args)
         ck.ob(rule, stc, lp, 'each child gets all messages, queued once on its own connection, unconditionally', ok,
               f'{[unparse(q) for q in qs]}', construct='fan-out body')
         other = [c for c in calls_in(stc.node) if call_name(c) in ('queue_messages', 'queue_message', 'send_message', 'send_peer_messages',
@@ -202,5 +220,6 @@ def run(eng: Engine, ck: Check):
     from . import defs as _d14
     _d14.presence_truthiness(eng, ck, 'R-C14-OWN', [('Session', 'session.py')], 'the own-name guard is `if self._session and message.username == self._session.user.name`')
     _d14.identity_semantics(eng, ck, 'R-C14-CHILDREN', [('PeerConnection', CONN)], 'the child list and the peer lookup compare connections; two connections of one user are different connections')
+    _d14.on_message_registers(eng, ck, 'R-C14-FWD', 'the three carriers of a search are three @on_message handlers in each of two managers')
     from . import defs as _d_act
     _d_act.active_connection_definition(eng, ck, 'R-C14-REPLY', 'the search reply is sent over a connection picked by this test, or a new one is made')
